@@ -2,7 +2,7 @@
 #include "w2c2_base.h"
 #include "wasm_int.h"
 #include "trapstub.h"
-#include "/verif/.work_wt/C16-23587/memrec/memrec.h"
+#include "/verif/.work_wt/C16-3954/memrec/memrec.h"
 #include "c16atm.c"
 #include "wasm_int.h"
 #include "libm_markers.h"
